@@ -42,6 +42,15 @@ fn is_harness_location(loc: &str, msg: &str) -> bool {
         || loc.starts_with("reg") || msg.starts_with("harness:")
 }
 
+/// After a caught panic outside `eval_case` (known-finding probes): `Some(text)` if the panic
+/// came from the code under test, `None` if it came from the harness itself.
+pub fn take_foreign_panic() -> Option<String> {
+    let (loc, msg) = LAST_PANIC
+        .with(|p| p.borrow_mut().take())
+        .unwrap_or_else(|| ("<unknown>".into(), "harness: <no message>".into()));
+    if is_harness_location(&loc, &msg) { None } else { Some(format!("{loc}: {msg}")) }
+}
+
 fn short_loc(loc: &str) -> String {
     // keep the crate directory and file: ".../cipher-0.5.0-pre.8/src/stream/wrapper.rs:83"
     let parts: Vec<&str> = loc.rsplitn(4, '/').collect();
